@@ -42,7 +42,12 @@ def reset_wt():
         if rc != 0:
             raise SystemExit(out)
     head = subprocess.check_output(["git", "-C", REPO, "rev-parse", "HEAD"], text=True).strip()
-    sh("git checkout -q --detach %s && git reset -q --hard %s && git clean -fdq" % (head, head), cwd=WT)
+    # discard whatever the previous seed left first: a checkout onto a moved
+    # HEAD fails on a dirty tree and would leave the old patch in place
+    sh("git reset -q --hard && git clean -fdq", cwd=WT)
+    rc, out = sh("git checkout -q --detach %s && git reset -q --hard %s && git clean -fdq" % (head, head), cwd=WT)
+    if rc != 0 or sh("git status --porcelain", cwd=WT)[1].strip():
+        raise SystemExit("cannot reset the confirmation worktree: " + out)
     os.makedirs(WT + "/tests/unit/target", exist_ok=True)
     os.makedirs(WT + "/target/integration-test", exist_ok=True)
 
